@@ -112,6 +112,13 @@ class World:
         for (mn, k), v in self.pristine.items():
             setattr(sys.modules[mn], k, copy.deepcopy(v, memo))
 
+    def capture_dds_state(self):
+        return {(mn, k): getattr(sys.modules[mn], k) for (mn, k) in self.pristine}
+
+    def install_dds_state(self, img):
+        for (mn, k), v in img.items():
+            setattr(sys.modules[mn], k, v)
+
     def close(self):
         for k in [k for k in sys.modules if k.startswith(("vp", "vr", "vx")) and k[2:3].isdigit()]:
             del sys.modules[k]
@@ -162,6 +169,8 @@ class Prog:
         self.extra_accept = [f"padpkg{i}" for i in range(n_accept_extra)]
         self.accept_suffix = ""   # accepted prefix below the top-level package, e.g. ".p1.p2"
         self.accept_first = []    # names accepted before the real prefix (acceptance order matters to some implementations)
+        self.images = {}          # second live process of the same program: pid -> (dds state image, store object)
+        self.cur_pid = 0
         if self.root not in sys.path:
             sys.path.insert(0, self.root)
 
@@ -268,9 +277,28 @@ class Prog:
         self.capture = CaptureStore(inner)
         dds.set_store(self.capture)
 
+    def switch_process(self):
+        """two long-lived processes work on the same store: park the running one (its dds state, caches and store object stay
+        alive) and continue in the other one, which is started fresh the first time"""
+        self.images[self.cur_pid] = (self.w.capture_dds_state(), self.capture)
+        self.cur_pid = 1 - self.cur_pid
+        if self.cur_pid in self.images:
+            img, cap = self.images[self.cur_pid]
+            self.w.install_dds_state(img)
+            self.capture = cap
+        else:
+            self.w.fresh_dds_state()
+            import dds
+            for p in self.accept_first + [self.pkg + self.accept_suffix] + self.extra_accept:
+                dds.accept_module(p)
+            self.open_store()
+
     def goto(self, variant, how):
-        """how: 'restart' | 'inproc' (attribute assignment when only variable values differ, else reload)"""
+        """how: 'restart' | 'inproc' (attribute assignment when only variable values differ, else reload) | 'copy' | 'switch'"""
         old = self.variant
+        if how == "switch" and old is not None:
+            self.switch_process()
+            how = "inproc"
         if how == "copy" and old is not None:
             # the code is copied to another accepted package; a fresh process evaluates it there on the same store
             self.purge()
